@@ -645,6 +645,41 @@ Proof.
   rewrite eqb_true_iff. tauto.
 Qed.
 
+(* the three clause oracles the driver evaluates one after the other *)
+Lemma c01_req_ok_iff : forall es o,
+  c01_req_ok es o = true <-> Forall2 req_preserved_x (served es) (origin_saw o).
+Proof. intros. unfold c01_req_ok. apply (forall2b_Forall2 _ _ req_preserved_e_iff). Qed.
+
+Lemma c01_res_ok_iff : forall es o,
+  c01_res_ok es o = true <-> Forall2 res_preserved (map resp_of (served es)) (client_got o).
+Proof. intros. unfold c01_res_ok. apply (forall2b_Forall2 _ _ res_preserved_b_iff). Qed.
+
+Lemma c01_close_ok_iff : forall es o,
+  c01_close_ok es o = true <-> closed o = existsb wants_close es.
+Proof. intros. unfold c01_close_ok. apply eqb_true_iff. Qed.
+
+Lemma Forall2_len : forall {A B} (P : A -> B -> Prop) l m, Forall2 P l m -> List.length l = List.length m.
+Proof. intros A B P l m H. induction H; cbn; congruence. Qed.
+
+(* "one request / one response per exchange": a count mismatch fails the clause *)
+Lemma c01_req_ok_length : forall es o,
+  c01_req_ok es o = true -> List.length (origin_saw o) = List.length (served es).
+Proof. intros es o H. apply c01_req_ok_iff in H. symmetry. exact (Forall2_len _ _ _ H). Qed.
+
+Lemma c01_res_ok_length : forall es o,
+  c01_res_ok es o = true -> List.length (client_got o) = List.length (served es).
+Proof.
+  intros es o H. apply c01_res_ok_iff in H. apply Forall2_len in H. now rewrite map_length in H.
+Qed.
+
+(* an observation that passes has no incomplete (unframeable) response in it *)
+Lemma c01_res_ok_all_complete : forall es o,
+  c01_res_ok es o = true -> Forall (fun c => c_complete c = true) (client_got o).
+Proof.
+  intros es o H. apply c01_res_ok_iff in H.
+  induction H as [|r c rs cs Hrc _ IH]; constructor; [|exact IH]. apply Hrc.
+Qed.
+
 Lemma run_holds : forall es,
   (forall e, In e es -> wf_req (rq e) = true) -> c01_holds es (run es).
 Proof.
